@@ -22,7 +22,7 @@ ESTIMATORS = ["numpy", "torch", "torch_fourier"]
 
 # sub-pixel clause, domain guards (both are functions of the generated inputs only)
 GUARD_PARABOLA = 0.15  # textbook 3-point estimate within 0.15 px of the truth
-GUARD_SKEW = 0.10  # per-axis refinement of a skewed peak off by <= 0.10 sampling steps
+GUARD_SKEW = 0.06  # per-axis refinement of a skewed peak off by <= 0.06 sampling steps
 
 _MEASURE = bool(os.environ.get("VQ_C13_MEASURE"))
 
@@ -67,7 +67,7 @@ def images(draw, allow_noise, dtype):
 
 
 @st.composite
-def cases(draw):
+def cases(draw, tight_margins=True):
     # explicit parity: size = 2*m + p
     h = 2 * draw(st.integers(4, 19)) + draw(st.integers(0, 1))
     w = draw(st.just(h) | st.builds(lambda m, p: min(2 * m + p, 40), st.integers(4, 20), st.integers(0, 1)))
@@ -96,9 +96,14 @@ def cases(draw):
         case["fft_input"] = draw(st.booleans())
         case["ret_img"] = draw(st.booleans())
         case["fft_output"] = draw(st.booleans()) if case["ret_img"] else False
-        # None, or the true shift length plus a margin that keeps the peak pixel and its two
-        # neighbours per axis inside the allowed disc
-        case["max_shift_margin"] = draw(st.none() | st.sampled_from([2.5, 4.0, 16.0, 1000.0]))
+        # None, or the true (centred) shift length plus a margin.  For sub-pixel shifts the margin
+        # keeps the peak pixel and its parabola neighbours inside the allowed disc (the pixel
+        # nearest to a sub-pixel peak may otherwise be excluded, which no estimator can undo); for
+        # integer shifts the peak pixel is the shift itself, so any positive margin is in domain.
+        margins = [2.5, 4.0, 16.0, 1000.0]
+        if tight_margins and sk != "real":
+            margins = [0.25, 0.5, 1.0, 1.5] + margins
+        case["max_shift_margin"] = draw(st.none() | st.sampled_from(margins))
     return case
 
 
@@ -218,7 +223,8 @@ def check(ctx, case):
         classes.append("fft_input" if case["fft_input"] else "real_input")
         if case["ret_img"]:
             classes.append("aligned_image:" + ("fourier" if case["fft_output"] else "real"))
-        classes.append("max_shift:" + ("none" if case.get("max_shift_margin") is None else "set"))
+        mm = case.get("max_shift_margin")
+        classes.append("max_shift:" + ("none" if mm is None else "tight" if mm < 2.5 else "set"))
     nontrivial = ((not integer) and up >= 2 and guard_ok) or beyond or (h != w)
     ctx.record(case, bool(nontrivial), classes)
 
@@ -250,7 +256,8 @@ def check(ctx, case):
     # -- the returned shift is the applied translation (sign: moving `im` by it gives `ref`)
     ey, ex = R.circ_err(r[0], exp[0], h), R.circ_err(r[1], exp[1], w)
     err = max(ey, ex)
-    ratio = _ratio(ctx, "shift:%s:%s" % ("int" if integer else "sub", est), err, tol)
+    stage = "" if integer else (":coarse_only" if up == 1 or (up == 2 and est != "numpy") else ":upsampled")
+    ratio = _ratio(ctx, "shift:%s:%s%s" % ("int" if integer else "sub", est, stage), err, tol)
     if not integer and not _MEASURE and currently_in_test_context():
         target(min(ratio, 4.0), label="err/tol " + est)
     if err > tol:
@@ -282,5 +289,13 @@ def check(ctx, case):
             _fail("swapping the images does not negate the shift: %r vs %r" % (r.tolist(), r2.tolist()), case)
 
 
+# key of the known-finding entry to use if the max_shift refinement defect is recorded rather than
+# fixed: the generator then keeps max_shift at least 2.5 px away from the true shift
+KEY_MAX_SHIFT = "max-shift-masks-refinement"
+
+
 def search(ctx):
-    core.run_given(ctx, "cases", cases(), lambda c: check(ctx, c), ctx.n(2500, 40000))
+    tight = not ctx.is_open(KEY_MAX_SHIFT)
+    if not tight:
+        ctx.exclude(KEY_MAX_SHIFT)
+    core.run_given(ctx, "cases", cases(tight_margins=tight), lambda c: check(ctx, c), ctx.n(6000, 60000))
